@@ -276,6 +276,8 @@ func c18Scenarios() []c18Scenario {
 		{"exp||ln-near-one (power series)", 6, [][]c18Call{t(ctxCall1("Exp", cExp, "t")), t(ctxCall1("Ln", cLn, "z"))}, true, 1, 1},
 		{"cbrt||pow", 5, [][]c18Call{t(ctxCall1("Cbrt", cCbrt, "a")), t(ctxCall2("Pow", cPow, "t", "q"))}, true, 1, 1},
 		{"sqrt||add||string-readers", 8, [][]c18Call{t(ctxCall1("Sqrt", cSqrt, "t")), t(ctxCall2("Add", cAdd, "a", "b")), t(readers("b", "a"))}, true, 1, 1},
+		{"ln||ln at precision 70 (first use of the constant-table entries beyond 64 digits)", 70, [][]c18Call{t(ctxCall1("Ln", cLn, "a")), t(ctxCall1("Ln", cLn, "t"))}, true, 1, 1},
+		{"ln||log10 at precision 200 (two constant-table entries beyond 64 digits, both tables)", 200, [][]c18Call{t(ctxCall1("Ln", cLn, "t")), t(ctxCall1("Log10", cLog10, "a"))}, true, 1, 1},
 		{"exp||exp (shared operand, different destinations)", 9, [][]c18Call{t(ctxCall1("Exp", cExp, "q")), t(ctxCall1("Exp", cExp, "q"))}, true, 1, 1},
 	}
 }
